@@ -450,7 +450,7 @@ def ob_zero(P, K, hooks=None, mode="live"):
         if K in TEMPLATE_CLASSES:
             cx.emit(["C16"], "ensures:template-not-a-fill-slot", p, s, lambda s2: template_goal(s2, K, r.v))
         if isinstance(r.v, VObj):
-            cx.emit(["C01"], "ensures:view", p, s, lambda s2: eq_views(s2, K, view_of(s2, r.v, K), specs.zero(K, s2, a)))
+            cx.emit(["C01", "C05"], "ensures:view", p, s, lambda s2: eq_views(s2, K, view_of(s2, r.v, K), specs.zero(K, s2, a)))
             cx.emit(["C04", "C01"], "ensures:quantity", p, s, lambda s2: quantity_same(s2, pre, selfv, r.v))
             if K in ("SparselyBin", "Categorize"):
                 cx.emit(["C04", "C01"], "ensures:content-type", p, s, lambda s2: content_shape(s2, r.v) == content_shape(pre, selfv))
@@ -529,7 +529,7 @@ def ob_add(P, K, hooks=None, mode="live"):
             if K in TEMPLATE_CLASSES:
                 cx.emit(["C16"], "ensures:template-not-a-fill-slot", p, s, lambda s2: template_goal(s2, K, r.v))
             if isinstance(r.v, VObj):
-                cx.emit(["C01"], "ensures:view", p, s, lambda s2: plus_goal(s2, K, a, b, view_of(s2, r.v, K)))
+                cx.emit(["C01", "C05"], "ensures:view", p, s, lambda s2: plus_goal(s2, K, a, b, view_of(s2, r.v, K)))
                 cx.emit(["C04", "C01"], "ensures:quantity", p, s, lambda s2: quantity_same(s2, pre, selfv, r.v))
                 if K in ("SparselyBin", "Categorize"):
                     cx.emit(["C04", "C01"], "ensures:content-type", p, s, lambda s2: content_shape(s2, r.v) == content_shape(pre, selfv))
@@ -608,7 +608,7 @@ def ob_iadd(P, K, hooks=None, mode="live"):
             for part in compat_part_names(K):
                 cx.emit(["C10"], "ensures:compatible-" + part, p, s, lambda s2, part=part: specs_compat(s2, K, pre, selfv, other, part))
             cx.emit(["C07"], "ensures:same-object", p, s, z3.BoolVal(isinstance(r.v, VObj) and r.v.oid == selfv.oid))
-            cx.emit(["C07"], "ensures:view", p, s, lambda s2: plus_goal(s2, K, a, b, view_of(s2, selfv, K)))
+            cx.emit(["C07", "C05"], "ensures:view", p, s, lambda s2: plus_goal(s2, K, a, b, view_of(s2, selfv, K)))
             cx.emit(["C07"], "ensures:wf", p, s, lambda s2: wf_goal(s2, K, selfv))
             if K == "Branch":
                 cx.emit(["C07"], "ensures:iN-accessors-alias-values", p, s, lambda s2: alias_goal(s2, selfv))
@@ -717,7 +717,7 @@ def ob_mul(P, K, method="__mul__", hooks=None, mode="live"):
                     eq_views(s2, K, got, specs.zero(K, s2, a), name="view-nonpos"),
                 )
 
-            cx.emit(["C08"], "ensures:view", p, s, g)
+            cx.emit(["C08", "C05"], "ensures:view", p, s, g)
             cx.emit(["C08", "C04"], "ensures:quantity", p, s, lambda s2: quantity_same(s2, pre, selfv, r.v))
             if K in ("SparselyBin", "Categorize"):
                 cx.emit(["C08", "C04"], "ensures:content-type", p, s, lambda s2: content_shape(s2, r.v) == content_shape(pre, selfv))
@@ -755,7 +755,7 @@ def ob_fill(P, K, hooks=None, mode="live", rollback=False):
             continue
         if rollback:
             continue
-        cx.emit(["C02", "C01"], "ensures:view", p, s, lambda s2: z3.Implies(w.ispos(), fillspec.fill_post(s2, K, pre, selfv, a, view_of(s2, selfv, K), d, w)))
+        cx.emit(["C02", "C01", "C05"], "ensures:view", p, s, lambda s2: z3.Implies(w.ispos(), fillspec.fill_post(s2, K, pre, selfv, a, view_of(s2, selfv, K), d, w)))
         cx.emit(["C02"], "ensures:wf", p, s, lambda s2: wf_goal(s2, K, selfv))
         if K == "Branch":
             cx.emit(["C02"], "ensures:iN-accessors-alias-values", p, s, lambda s2: alias_goal(s2, selfv))
